@@ -50,4 +50,18 @@ theorem challenge_iff (recorded : LK.Py.V) : recordedHashBranch recorded = 0 ↔
 theorem mismatch_iff (computed r : Int) : hashMismatchBranch computed (some r) = 0 ↔ computed ≠ r := by
   simp [hashMismatchBranch]
 
+/-! ### what a component given to the builder becomes -/
+
+/-- a component *instance* is kept as it is (its settings are its own); a component *class* that takes a configuration becomes a
+    constructor node whose configuration has been validated — a missing one is the class's default settings, so the document always
+    lists the settings in force; only a bare type that is not a component constructor gets no configuration -/
+theorem create_dispatch (isInstance isConstructor isType : Bool) :
+    createDispatch isInstance isConstructor isType
+      = some (if isInstance then 0 else if isConstructor then 1 else if isType then 2 else 3) := by
+  cases isInstance <;> cases isConstructor <;> cases isType <;> rfl
+
+/-- a component class never gets the unvalidated (absent) configuration -/
+theorem constructor_config_validated (isType : Bool) : createDispatch false true isType = some 1 := by
+  cases isType <;> rfl
+
 end LK.Gen.GuardsC13
